@@ -295,6 +295,15 @@ impl GitSyncServer {
             }
         }
 
+        // Discard whatever an interrupted write left behind before trusting the files: restore
+        // tracked files (in particular `meta`) to the last commit, remove untracked files, and,
+        // when syncing with a remote, drop commits that were never pushed.
+        let _ = git.cmd_ok(local_path, &["reset", "--hard", "HEAD"])?;
+        git.clean_stray_files(local_path)?;
+        if let (false, Some(remote)) = (local_only, remote) {
+            Self::reset_to_remote_in(git, local_path, remote, branch)?;
+        }
+
         // Check for meta file, create and commit if missing.
         let meta_path = local_path.join("meta");
         let meta = match load_meta(&meta_path) {
@@ -319,7 +328,15 @@ impl GitSyncServer {
 
     /// Read the meta file from disk and update self.meta.
     fn read_meta(&mut self) -> Result<()> {
-        self.meta = load_meta(&self.local_path.join("meta"))?;
+        let meta = load_meta(&self.local_path.join("meta"))?;
+        if meta.salt != self.meta.salt {
+            // The key in use was derived from the old salt and cannot open or seal anything in
+            // this repository any more.
+            return Err(Error::Server(
+                "the repository's salt has changed; the server must be re-created".into(),
+            ));
+        }
+        self.meta = meta;
         Ok(())
     }
 
@@ -341,33 +358,47 @@ impl GitSyncServer {
         if self.local_only {
             return Ok(());
         }
+        Self::reset_to_remote_in(&self.git, &self.local_path, remote, &self.branch)
+    }
+
+    fn reset_to_remote_in(git: &Git, local_path: &Path, remote: &str, branch: &str) -> Result<()> {
         // Check whether the remote branch exists before fetching. A bare repo with no commits
         // has no refs yet, and `git fetch origin <branch>` would fail in that case.
-        if !self.git.cmd_ok(
-            &self.local_path,
-            &["ls-remote", "--exit-code", "--heads", remote, &self.branch],
+        if !git.cmd_ok(
+            local_path,
+            &["ls-remote", "--exit-code", "--heads", remote, branch],
         )? {
             return Ok(());
         }
         // Warn if there are uncommitted changes that the hard reset will discard. This should
         // only happen if a previous write was interrupted. clean_stray_files handles the fallout.
-        if !self
-            .git
-            .cmd_ok(&self.local_path, &["diff", "--quiet", "HEAD"])?
-        {
+        if !git.cmd_ok(local_path, &["diff", "--quiet", "HEAD"])? {
             log::warn!("reset_to_remote: discarding uncommitted local changes");
         }
-        self.git
-            .cmd(&self.local_path, &["fetch", remote, &self.branch])?;
-        self.git
-            .cmd(&self.local_path, &["reset", "--hard", "FETCH_HEAD"])?;
+        git.cmd(local_path, &["fetch", remote, branch])?;
+        git.cmd(local_path, &["reset", "--hard", "FETCH_HEAD"])?;
         // Remove any untracked files left behind by interrupted writes.
-        self.git.clean_stray_files(&self.local_path)?;
+        git.clean_stray_files(local_path)?;
         Ok(())
     }
 
-    /// Push to the remote branch. Returns `true` on success, `false` if the push is rejected.
-    /// Returns `true` immediately when there is no remote or in local-only mode.
+    /// Return the working tree and the cached metadata to the last commit, discarding files
+    /// written for a commit that was not made.
+    fn discard_uncommitted(&mut self) -> Result<()> {
+        self.git
+            .cmd(&self.local_path, &["reset", "--hard", "HEAD"])?;
+        self.git.clean_stray_files(&self.local_path)?;
+        self.read_meta()
+    }
+
+    /// Remove the last local commit (one that could not be pushed) together with its files.
+    fn undo_last_commit(&mut self) -> Result<()> {
+        self.git
+            .cmd(&self.local_path, &["reset", "--hard", "HEAD~1"])?;
+        self.git.clean_stray_files(&self.local_path)?;
+        self.read_meta()
+    }
+
     fn push(&self) -> Result<bool> {
         let Some(remote) = self.remote.as_deref() else {
             return Ok(true);
@@ -655,32 +686,55 @@ impl Server for GitSyncServer {
             parent_version_id,
             history_segment,
         };
-        let version_path = self.add_version_by_parent_version_id(&version)?;
-        #[cfg(gothenburgbitfactory_taskchampion_verif)]
-        crate::server::verif::failpoint("git.add_version.after_version_file")?;
-        self.meta.latest_version = version_id;
-        let meta_path = self.write_meta()?;
-        #[cfg(gothenburgbitfactory_taskchampion_verif)]
-        crate::server::verif::failpoint("git.add_version.after_meta")?;
+        let mut attempts = 0;
+        loop {
+            attempts += 1;
+            let committed = (|| {
+                let version_path = self.add_version_by_parent_version_id(&version)?;
+                #[cfg(gothenburgbitfactory_taskchampion_verif)]
+                crate::server::verif::failpoint("git.add_version.after_version_file")?;
+                self.meta.latest_version = version_id;
+                let meta_path = self.write_meta()?;
+                #[cfg(gothenburgbitfactory_taskchampion_verif)]
+                crate::server::verif::failpoint("git.add_version.after_meta")?;
 
-        // Commit and push, reverting if push fails.
-        self.git.stage_and_commit(
-            &self.local_path,
-            &[&version_path, &meta_path],
-            "add version",
-        )?;
+                // Commit and push, reverting if push fails.
+                self.git.stage_and_commit(
+                    &self.local_path,
+                    &[&version_path, &meta_path],
+                    "add version",
+                )
+            })();
+            if let Err(e) = committed {
+                // Nothing was committed: forget the files (and the cached latest version) again.
+                self.discard_uncommitted()?;
+                return Err(e);
+            }
 
-        if !self.push()? {
-            // Push was rejected. Undo the commit. reset_to_remote will fetch, reset --hard,
-            // and clean away the stray version file.
-            self.git
-                .cmd(&self.local_path, &["reset", "HEAD~1", "--soft"])?;
-            self.reset_to_remote()?;
-            self.read_meta()?;
-            return Ok((
-                AddVersionResult::ExpectedParentVersion(self.meta.latest_version),
-                SnapshotUrgency::None,
-            ));
+            let pushed = match self.push() {
+                Ok(pushed) => pushed,
+                Err(e) => {
+                    self.undo_last_commit()?;
+                    return Err(e);
+                }
+            };
+            if !pushed {
+                // Push was rejected. Undo the commit, then take over the remote's state.
+                self.undo_last_commit()?;
+                self.reset_to_remote()?;
+                self.read_meta()?;
+                // The remote may have moved for another reason than a new version (a snapshot
+                // or a cleanup by another replica), in which case the parent is still the
+                // latest version and this version must not be rejected: try again.
+                if parent_version_id == self.meta.latest_version && attempts < 3 {
+                    continue;
+                }
+                return Ok((
+                    AddVersionResult::ExpectedParentVersion(self.meta.latest_version),
+                    SnapshotUrgency::None,
+                ));
+            }
+            break;
         }
 
         Ok((AddVersionResult::Ok(version_id), self.snapshot_urgency()))
@@ -711,6 +765,7 @@ impl Server for GitSyncServer {
 
     async fn add_snapshot(&mut self, version_id: VersionId, snapshot: Snapshot) -> Result<()> {
         self.reset_to_remote()?;
+        self.read_meta()?;
         // Write the snapshot to a file.
         // If another replica has pushed a snapshot for a later version in the chain between
         // our reset_to_remote and our push, we will overwrite it. This is harmless. A replica
@@ -734,9 +789,9 @@ impl Server for GitSyncServer {
 
         if !self.push()? {
             // Push was rejected. Undo the commit and reset_to_remote to restore state.
-            self.git
-                .cmd(&self.local_path, &["reset", "HEAD~1", "--soft"])?;
+            self.undo_last_commit()?;
             self.reset_to_remote()?;
+            self.read_meta()?;
             return Err(Error::Server("Couldn't push to remote.".into()));
         }
 
@@ -750,6 +805,7 @@ impl Server for GitSyncServer {
 
     async fn get_snapshot(&mut self) -> Result<Option<(VersionId, Snapshot)>> {
         self.reset_to_remote()?;
+        self.read_meta()?;
 
         let snapshot_path = self.local_path.join("snapshot");
         if let Ok(file) = File::open(&snapshot_path) {
